@@ -115,3 +115,23 @@ Definition cv_string_double_fetch (w off : nat) : prog (list Z) :=
       (Tick (strlen_prog (w - off) off 0 (fun len2 =>
          range_loop 1 off (S len2) [] (fun es => Tick (Ret (concat es)))))))))))
   .
+
+(* ---------- address verifiers on a pointer CELL that lies in sandbox memory (a tainted_volatile<T*>) ----------
+   the cell holds the 4-byte little-endian guest representation at window offset [cell]; [total] is the size of sandbox
+   memory, a representation r designates [r, r + size) of it *)
+Definition le4 (bs : list Z) : Z := fold_right (fun b acc => b + 256 * acc) 0 bs.
+(* copy_and_verify_buffer_address(size):  count check ; range.fetch ; ONE fetch of the cell ; null passes through ;
+   range check of [r, r+size) - the back end is consulted: an interleave point - ; the verifier gets that same r *)
+Definition cv_buffer_address (total size : Z) (cell : nat) : prog Z :=
+  Chk (negb (size =? 0))
+    (Tick (rd_bytes cell 4 [] (fun bs =>
+       let r := le4 bs in
+       if r =? 0 then Ret 0 else Chk (r + size <=? total) (Tick (Ret r))))).
+(* copy_and_verify_address: one fetch, nothing else *)
+Definition cv_address (cell : nat) : prog Z := rd_bytes cell 4 [] (fun bs => Ret (le4 bs)).
+(* the refuted variant: range-checks one fetch and hands over a second one *)
+Definition cv_buffer_address_refetch (total size : Z) (cell : nat) : prog Z :=
+  Chk (negb (size =? 0))
+    (Tick (rd_bytes cell 4 [] (fun bs =>
+       let r := le4 bs in
+       if r =? 0 then cv_address cell else Chk (r + size <=? total) (Tick (cv_address cell))))).
